@@ -773,8 +773,10 @@ class BlockDownloadStream(io.RawIOBase):
         request[1:len(b) + 1] = b
         self.sdo_client.send_request(request)
         self.pos += len(b)
-        # Add the sent data to the current block buffer
-        self._current_block.append(b)
+        # Add the sent data to the current block buffer. Keep a copy: b may be
+        # a view of a BufferedWriter's buffer which is refilled before the
+        # block is acknowledged
+        self._current_block.append(bytes(b))
         # Don't calculate crc if retransmitting
         if self.crc_supported and not self._retransmitting:
             # Calculate CRC
